@@ -583,6 +583,12 @@ impl Stream {
             let pending_entries = group.add_pending(consumer_name, entries.clone());
             Ok(pending_entries)
         } else {
+            // NOACK: nothing becomes pending, but new entries still count as delivered
+            if after_id == StreamId::max() {
+                if let Some(last_entry) = entries.last() {
+                    group.set_id(last_entry.id);
+                }
+            }
             Ok(entries)
         }
     }
